@@ -190,3 +190,49 @@ class LemmaSingleByteCorruption:
         ln, ln2, total = z3.Int("in:len"), z3.Int("in:len2"), z3.Int("in:total")
         out["corrupt.length-byte"] = ([total == ln + 3, ln2 != ln], z3.Or(ln2 < 10, total != ln2 + 3), {})
         return out
+
+
+# =============================================================================================== message split (bounded shape)
+@contract("secsgem.common.message:Message._split_blocks", "C16")
+class SplitBlocks:
+    """O89 for bodies of up to three blocks (block count as case split, the body length is symbolic inside each case,
+    so every boundary 0, 1, 243..245, 487..489, 731, 732 is covered; longer bodies: bounded pass): n = max(1, ceil(len/244))
+    blocks, block i holds exactly bytes 244*i .. min(len, 244*(i+1)), numbered i+1, the end bit on exactly the last one, every
+    other header field preserved - SecsIHeader.updated_with, the header constructor and the block constructor inlined."""
+
+    cases = [("empty", {"k": 0}), ("1-block", {"k": 1}), ("2-blocks", {"k": 2}), ("3-blocks", {"k": 3})]
+
+    def inputs(k):
+        return {"cls": Const(SecsIMessage), "data": Bytes(), "header": hdr_obj(), "complete": Const(True)}
+
+    def requires(data, header, case):
+        k = case["k"]
+        n = len(data)
+        if k == 0:
+            return n == 0
+        return 244 * (k - 1) < n and n <= 244 * k
+
+    def raises():
+        return {}
+
+    def ensures(data, header, result, case):
+        k = max(1, case["k"])
+        n = len(data)
+        out = {"block-count": len(result) == k}
+        ok_data, ok_num, ok_end, ok_rest = True, True, True, True
+        for i in range(k):
+            b = result[i]
+            lo = 244 * i
+            ln = (n - lo) if i == k - 1 else 244
+            ok_data = ok_data and len(b._data) == ln and forall(0, ln, lambda t: b._data[t] == data[lo + t])
+            ok_num = ok_num and b._header._block == i + 1
+            ok_end = ok_end and b._header._last_block == (i == k - 1)
+            h = b._header
+            ok_rest = ok_rest and (h._system == header._system and h._device_id == header._device_id and h._stream == header._stream
+                                   and h._function == header._function and h._from_equipment == header._from_equipment
+                                   and h._require_response == header._require_response)
+        out["data-partitioned-in-order-at-most-244"] = ok_data
+        out["numbered-from-1"] = ok_num
+        out["end-bit-on-exactly-the-last-block"] = ok_end
+        out["other-header-fields-preserved"] = ok_rest
+        return out
